@@ -3,6 +3,8 @@
 #pragma once
 #include <array>
 #include <climits>
+#include <cstring>
+#include <limits>
 #include <functional>
 #include <memory>
 #include <sstream>
@@ -114,6 +116,20 @@ inline const PolyTemplate &poly_template(int t) {
     return T[t & 3];
 }
 
+inline Vec3d special_pos(int code) {
+    double nanv; { uint64_t u = 0x7ff8000000000123ULL; memcpy(&nanv, &u, 8); }
+    switch (code) {
+    case -1: return Vec3d(-0.0, 0.0, -0.0);
+    case -2: return Vec3d(std::numeric_limits<double>::infinity(), -std::numeric_limits<double>::infinity(), 1.0);
+    case -3: return Vec3d(std::numeric_limits<double>::denorm_min(), std::numeric_limits<double>::min(), std::numeric_limits<double>::max());
+    case -4: return Vec3d(nanv, 0.1, 1e-300);
+    default: return Vec3d(1.0 / 3.0, 2.0 / 3.0, 1e17 + 1);
+    }
+}
+inline Vec3d pos_of_code(int n) { return n == INT_MIN ? Vec3d(0, 0, 0) : n < 0 ? special_pos(n) : Render<Vec3d>::make(n); }
+
+struct IoRec { int kind; std::string type; std::string name; std::string def; std::vector<std::string> elems; bool ascii_ok; };
+
 // ------------------------------------------------------------------ one replica = mesh + model + tags + props
 template <class Mesh> struct Rep {
     std::unique_ptr<Mesh> mesh;
@@ -123,7 +139,8 @@ template <class Mesh> struct Rep {
     HalfEdgePropertyT<int> the; HalfFacePropertyT<int> thf;
     std::vector<MProp> props;                    // model ids index this
     bool ever_reenabled = false;
-    std::map<std::array<int, 3>, int> lat_v, lat_c;   // hex lattice: coordinate -> vertex uid / cell uid
+    std::map<std::array<int, 3>, int> lat_v, lat_c;
+    std::vector<IoRec> io;                        // extra persistent properties of all codec types (checkpointer)   // hex lattice: coordinate -> vertex uid / cell uid
     Rep() : mesh(new Mesh()), tv(mesh->template create_private_property<int, Entity::Vertex>("", -7)),
             te(mesh->template create_private_property<int, Entity::Edge>("", -7)),
             tf(mesh->template create_private_property<int, Entity::Face>("", -7)),
